@@ -18,7 +18,9 @@ def rand_cfg(rng, cyclic=False):
            'linear': rng.choice(['direct', 'direct_asm', 'krylov', 'lbgs']) if cyclic
            else rng.choice(LINEAR),
            'nonlinear': rng.choice(['nlbgs', 'newton', 'nlbgs', 'nlbjac']) if cyclic else None,
-           'sub_linear': rng.choice([None, None, 'direct', 'lbgs']),
+           'sub_linear': rng.choice([None, None, 'direct', 'lbgs', 'direct', 'krylov']),
+           'rhs_checking': rng.choice([None, True, True, {'check_zero': True},
+                                       {'max_cache_entries': 1, 'check_zero': True}]),
            'jac': rng.choice([None, None, 'dense', 'csc']),
            'partials': rng.choice([None, None, 'dense', 'sparse', 'cs', 'matfree']),
            'return_format': rng.choice(['array', 'flat_dict', 'dict']),
@@ -63,12 +65,25 @@ class C01(Property):
 
     def cases(self, rng, tier):
         n = 40 if tier == 'quick' else 1500
+        # family: one response is a multiple of another, reverse mode, solvers with rhs_checking
+        # inside sub-groups (redundant adjoint solves served from the LinearRHSChecker cache)
+        for _ in range(8 if tier == 'quick' else 150):
+            cfg = rand_cfg(rng, False)
+            cfg.update(mode='rev', linear=rng.choice([None, 'runonce', 'lbgs', 'direct']),
+                       sub_linear=rng.choice(['direct', 'direct', 'krylov']),
+                       rhs_checking=rng.choice([True, True, {'check_zero': True}]))
+            yield {'gen_seed': rng.randrange(10 ** 9),
+                   'opts': {'safe_indices': True, 'scaling': rng.random() < 0.4,
+                            'array_scaling': True, 'implicit': rng.random() < 0.3,
+                            'cycles': False, 'resp_chain': True, 'n_comps': (3, 6)},
+                   'cfg': cfg}
         for _ in range(n):
             cyc = rng.random() < 0.4
             yield {'gen_seed': rng.randrange(10 ** 9),
                    'opts': {'safe_indices': rng.random() < 0.6, 'scaling': rng.random() < 0.4,
                             'array_scaling': True, 'implicit': rng.random() < 0.5,
-                            'cycles': 'converging' if cyc else False},
+                            'cycles': 'converging' if cyc else False,
+                            'resp_chain': rng.random() < 0.4},
                    'cfg': rand_cfg(rng, cyc)}
 
     def _md(self, case):
